@@ -149,3 +149,72 @@ Proof.
   - cbn [tailtext] in Hd. apply (HB (len P) P); [exact Hd|reflexivity].
 Qed.
 End MarkWalk.
+
+(* ---- process / the API ---- *)
+Lemma known_c11_pre_ok dbl : forall ap, length dbl = length ap ->
+  existsb (fun lp => match snd lp with MixedCaseAscii _ => existsb is_fffd (fst lp) | _ => false end) (combine dbl ap) = false ->
+  pre_ok dbl ap.
+Proof.
+  induction dbl as [|l r IH]; intros ap Hl H; destruct ap as [|e ap]; cbn [length] in Hl; try discriminate; [constructor|].
+  cbn [combine existsb fst snd] in H. apply orb_false_iff in H. destruct H as [H1 H2].
+  constructor; [destruct e; [exact H1|exact I|exact I]|apply IH; [lia|exact H2]].
+Qed.
+
+Section Main.
+Variable A : adapter.
+Variable cfg : bool.
+
+(* the marking run with had_errors set, outside Known_C11: a validity error, a sink error or a panic - never
+   Passthrough, never WroteToSink *)
+Theorem mark_err_status d deny hy p k1 k2 w ptu bd db ap :
+  process_inner A cfg false hy deny d = IRes ptu bd true db ap -> Known_C11 A cfg d deny hy = false ->
+  match fst (fst (process A cfg false p d deny hy k1 k2 w)) with
+  | PPassthrough | PWroteToSink => False
+  | _ => True
+  end.
+Proof.
+  intros Hi Hk. pose proof (process_inner_FInv A cfg hy deny d) as HF. rewrite Hi in HF. cbn [FInv] in HF.
+  destruct HF as [[_ Hc]|(Hlt & dbl & Hdn & Hsp & Hnd & Hhe & Hx & Hlen & Hpb & P & rl & Hd & HP & Hcv)]; [discriminate Hc|].
+  unfold Known_C11 in Hk. rewrite Hi in Hk. rewrite Hsp in Hk.
+  assert (Hpo : pre_ok dbl ap).
+  { destruct bd; [cbn [andb] in Hk; exact (known_c11_pre_ok dbl ap Hlen Hk)|exact (Hpb eq_refl)]. }
+  unfold process. rewrite Hi. replace (ptu =? len d) with false by (symmetry; apply N.eqb_neq; lia). cbn [andb].
+  destruct (cfg && negb (Bool.eqb true (existsb is_fffd db))); [exact I|]. rewrite Hsp.
+  match goal with |- context [walk1 ?a ?b ?c ?d0 ?e ?f ?g ?h ?i ?j ?k ?l ?m] =>
+    pose proof (walk1_mark a c d0 e f h i j k l m Hpo) as HW;
+    destruct (walk1 a b c d0 e f g h i j k l m) as [ws we] end.
+  assert (HN : NP (ws, we)).
+  { apply HW. intros _. split; [symmetry; exact Hhe|]. exists P, rl. cbn [tailtext]. repeat split; assumption. }
+  unfold NP in HN. cbn [fst snd] in *.
+  destruct (run_sink k1 ws) as [s1 through1]. destruct (negb through1); [exact I|].
+  destruct we as [|huo|s]; [contradiction|exact I|exact I].
+Qed.
+
+(* C11, the same verdict, in full *)
+Theorem same_verdict_full d deny hy p : map_normalize A [] = [] -> DenyUpper deny ->
+  Known_C11 A cfg d deny hy = false ->
+  is_panic (to_ascii A cfg d deny hy DIgnore) = false -> ui_panics (to_user_interface A cfg d deny hy p) = false ->
+  res_err (to_ascii A cfg d deny hy DIgnore) = ui_err (to_user_interface A cfg d deny hy p).
+Proof.
+  intros H0 HD Hk Hp1 Hp2. pose proof (redisc_of_adapter A cfg deny H0 HD) as HRd.
+  destruct (to_user_interface A cfg d deny hy p) as [b t e|s] eqn:Eu; [|discriminate]. cbn [ui_err].
+  destruct e.
+  - rewrite (mark_err_ff_err A cfg d deny hy p b t HRd Eu). reflexivity.
+  - destruct (to_ascii A cfg d deny hy DIgnore) as [[b' r]| |s] eqn:Ea; [reflexivity| |discriminate].
+    exfalso. destruct (ta_err_inner A cfg d deny hy Ea) as (ptu & bd & db & ap & Ht).
+    pose proof (process_inner_sim A cfg hy deny d HRd) as HS. rewrite Ht in HS.
+    destruct (process_inner A cfg false hy deny d) as [ptu' bd' he db' ap'|s] eqn:Ei; cbn [inner_sim] in HS.
+    2:{ unfold to_user_interface, process in Eu. rewrite Ei in Eu. discriminate Eu. }
+    destruct he; [|inversion HS].
+    pose proof (mark_err_status d deny hy p None None false ptu' bd' db' ap' Ei Hk) as HM.
+    unfold to_user_interface in Eu.
+    destruct (process A cfg false p d deny hy None None false) as [[st s] a]. cbn [fst] in HM.
+    destruct st; try contradiction; discriminate.
+Qed.
+End Main.
+
+Lemma c11_same_verdict_full : forall A cfg, map_normalize A [] = [] -> C11_same_verdict_statement A cfg.
+Proof.
+  intros A cfg H0 d deny hy p Hb Hv Hk Hp1 Hp2.
+  exact (same_verdict_full A cfg d deny hy p H0 (proj1 (valid_deny_facts deny Hv)) Hk Hp1 Hp2).
+Qed.
